@@ -37,7 +37,8 @@ LTY = {"nat": "Nat", "pt": "Pt", "natlist": "List Nat", "edge": "Nat × Nat", "m
 LEAN_NAME = {"split_edge": "splitEdge", "triangulate_face": "triangulateFace", "split_face_as_fan": "splitFaceAsFan",
              "triangulate": "triangulate", "loop_subdivision": "loopSubdivision", "subdivide_triangles_6": "sub6",
              "subdivide_triangles_3quads": "quads3", "split_cell_as_fan": "splitCellAsFan",
-             "split_tet_from_face_center": "splitTetFromFaceCenter"}
+             "split_tet_from_face_center": "splitTetFromFaceCenter",
+             "split_double_boundary_edges_triangles": "splitDoubleBoundary"}
 # (qualified python name, mesh parameter or None for `self.mesh`, types of the other parameters); dependency order
 ORDER = [("split_edge", "polyline", ["nat"]),
          ("SurfaceSubdivision.split_face_as_fan", None, ["nat"]),
@@ -47,7 +48,8 @@ ORDER = [("split_edge", "polyline", ["nat"]),
          ("SurfaceSubdivision.subdivide_triangles_3quads", None, []),
          ("SurfaceSubdivision.subdivide_triangles_6", None, ["nat"]),
          ("VolumeSubdivision.split_cell_as_fan", None, ["nat"]),
-         ("VolumeSubdivision.split_tet_from_face_center", None, ["nat"])]
+         ("VolumeSubdivision.split_tet_from_face_center", None, ["nat"]),
+         ("split_double_boundary_edges_triangles", "mesh", [])]
 
 
 def _callfree(n):
@@ -136,6 +138,8 @@ class Fn:
         self.nx = 0
         self.nt = 0
         self.effects = []
+        self.brk = []            # per enclosing loop with a `break`: the expression a `break` ends the iteration with
+        self.editor = None       # the name bound by `with SurfaceSubdivision(mesh) as <name>`
         self.kinds = self._scan_kinds()
 
     # ---- names ---------------------------------------------------------------------------------------------------
@@ -155,8 +159,21 @@ class Fn:
         return self.fresh(py, ty)
 
     def _scan_kinds(self):
-        """kind of the local dicts: keyed by keyify(..) or by an index"""
+        """kind of the local dicts: keyed by keyify(..) or by an index; kind of the local lists started empty"""
         kinds = {}
+        self.list_kinds = {}
+        for n in ast.walk(self.fn):
+            if isinstance(n, ast.Call) and isinstance(n.func, ast.Attribute) and n.func.attr == "append" and isinstance(n.func.value, ast.Name) \
+                    and len(n.args) == 1 and isinstance(n.args[0], ast.Name):
+                idxs = set()
+                for f in ast.walk(self.fn):
+                    if isinstance(f, ast.For):
+                        if isinstance(f.target, ast.Name) and (isinstance(f.iter, ast.Attribute) or (isinstance(f.iter, ast.Call) and getattr(f.iter.func, "id", "") == "range")):
+                            idxs.add(f.target.id)
+                        if isinstance(f.target, ast.Tuple) and isinstance(f.iter, ast.Call) and getattr(f.iter.func, "id", "") == "enumerate" \
+                                and isinstance(f.target.elts[0], ast.Name):
+                            idxs.add(f.target.elts[0].id)
+                self.list_kinds.setdefault(n.func.value.id, "natlist" if n.args[0].id in idxs else "nll")
         for n in ast.walk(self.fn):
             if isinstance(n, ast.Assign) and len(n.targets) == 1 and isinstance(n.targets[0], ast.Subscript) and isinstance(n.targets[0].value, ast.Name):
                 k = n.targets[0].slice
@@ -296,6 +313,10 @@ class Fn:
             # the sum of two points read from a container: commutative, both reads raise the same exception
             a, b = sorted((n.left, n.right), key=lambda x: int(self.env[x.slice.id][0][1:]) if self.env[x.slice.id][0][1:].isdigit() else 0)
             n = ast.BinOp(a, op, b)
+        if isinstance(op, ast.Mult) and isinstance(n.left, ast.List) and len(n.left.elts) == 1 and isinstance(n.left.elts[0], ast.Constant) \
+                and n.left.elts[0].value == 0 and not isinstance(n.left.elts[0].value, bool):
+            r, tr = self.ex(n.right, pre)
+            if tr == "nat": return f"List.replicate {self.par(r)} 0", "natlist"
         l, tl = self.ex(n.left, pre)
         r, tr = self.ex(n.right, pre)
         if tl == tr == "nat":
@@ -367,7 +388,19 @@ class Fn:
             raise TranslateError(f"index `{var}` used for something else than reading `{field}`")
         return out
 
+    def _truthy(self, n, as_bool):
+        """`len(x) > 0` (normalised to `0 < len(x)`), `len(x) != 0` on a list local = the truthiness of the list"""
+        if isinstance(n, ast.Compare) and len(n.ops) == 1 and not as_bool:
+            a, b, o = n.left, n.comparators[0], n.ops[0]
+            is0 = lambda z: isinstance(z, ast.Constant) and z.value == 0 and not isinstance(z.value, bool)
+            lenof = lambda z: z.args[0] if (isinstance(z, ast.Call) and getattr(z.func, "id", "") == "len" and len(z.args) == 1
+                                            and isinstance(z.args[0], ast.Name)) else None
+            x = lenof(b) if (isinstance(o, (ast.Lt, ast.NotEq)) and is0(a)) else lenof(a) if (isinstance(o, ast.NotEq) and is0(b)) else None
+            if x is not None and self.env.get(x.id, ("", ""))[1] == "natlist": return x
+        return n
+
     def cond(self, n, pre, as_bool=False):
+        n = self._truthy(n, as_bool)
         if isinstance(n, ast.Compare) and len(n.ops) == 1:
             op = n.ops[0]
             if isinstance(op, (ast.In, ast.NotIn)):
@@ -387,6 +420,8 @@ class Fn:
         if isinstance(n, ast.Call):
             c, tc = self.ex(n, pre)
             if tc == "bool": return c if as_bool else f"{c} = true"
+        if isinstance(n, ast.Name) and n.id in self.env and self.env[n.id][1] == "natlist" and not as_bool:
+            return f"{self.env[n.id][0]} ≠ []"                      # `if pb_faces:`
         raise TranslateError(f"{self.py}: condition `{ast.unparse(n)[:80]}` not understood")
 
     # ---- statements ------------------------------------------------------------------------------------------------------
@@ -416,7 +451,7 @@ class Fn:
                     if n.func.attr in ("append", "add", "extend", "clear", "pop", "insert", "remove"):
                         v = target_var(n.func.value)
                         if v: w.add(v)
-                    if isinstance(n.func.value, ast.Name) and n.func.value.id == "self" and n.func.attr in LEAN_NAME:
+                    if isinstance(n.func.value, ast.Name) and n.func.attr in LEAN_NAME:
                         w.add("m")
         return [v for v in self.order if v in w]
 
@@ -442,6 +477,17 @@ class Fn:
             if isinstance(s, ast.Continue):
                 if not in_loop: raise TranslateError(f"{self.py}: continue outside a loop")
                 out.append(sp + final); return out
+            if isinstance(s, ast.Break):
+                if not in_loop or not self.brk: raise TranslateError(f"{self.py}: break outside a loop")
+                out.append(sp + self.brk[-1]); return out
+            if isinstance(s, ast.Raise):
+                e = s.exc
+                nm = e.func.id if isinstance(e, ast.Call) and isinstance(e.func, ast.Name) else e.id if isinstance(e, ast.Name) else None
+                kind = {"IndexError": ".index", "KeyError": ".key", "ValueError": ".value", "Exception": ".other"}.get(nm)
+                if kind is None: raise TranslateError(f"{self.py}: raise `{ast.unparse(s)[:60]}`")
+                out.append(sp + f"Except.error Err{kind}"); return out
+            if isinstance(s, ast.With):
+                out += [sp + l for l in self.with_stmt(s)]; continue
             if isinstance(s, ast.If):
                 out += self.if_stmt(s, rest, ind, final, in_loop); return out
             if isinstance(s, ast.For):
@@ -453,7 +499,7 @@ class Fn:
 
     def terminal(self, stmts):
         stmts = _strip(stmts)
-        return bool(stmts) and isinstance(stmts[-1], (ast.Return, ast.Continue))
+        return bool(stmts) and isinstance(stmts[-1], (ast.Return, ast.Continue, ast.Raise, ast.Break))
 
     def if_stmt(self, s, rest, ind, final, in_loop):
         sp = "  " * ind
@@ -566,27 +612,69 @@ class Fn:
         lst, ety, (n1, n2), body = self.iterable(s, pre)
         w = self.written(body, self.env)
         if not w: raise TranslateError(f"{self.py}: loop without effect")
-        pat = w[0] if len(w) == 1 else "(" + ", ".join(w) + ")"
-        sty = " × ".join(LTY[self.ty_of(v)] if " × " not in LTY[self.ty_of(v)] or len(w) == 1 else f"({LTY[self.ty_of(v)]})" for v in w)
+
+        def has_break(stmts):
+            for b in stmts:
+                if isinstance(b, ast.Break): return True
+                if isinstance(b, ast.If) and (has_break(b.body) or has_break(b.orelse)): return True
+            return False
+        brk = has_break(body)
+        depth = len(self.brk)
+        tys = [LTY[self.ty_of(v)] for v in w]
+        names = list(w)
+        if brk:
+            names.append(f"brk{depth}"); tys.append("Bool")
+        pat = names[0] if len(names) == 1 else "(" + ", ".join(names) + ")"
+        sty = " × ".join(t if " × " not in t or len(tys) == 1 else f"({t})" for t in tys)
         saved = dict(self.env); saved_order = list(self.order)
         ev = "e"
-        lines = [f"let {pat} ← foldE (fun (st : {sty}) ({ev} : {LTY[ety]}) => do"]
-        if len(w) > 1: lines.append(f"    let {pat} := st")
-        else: lines.append(f"    let {pat} := st")
+        out_pat = pat if not brk else ((w[0] if len(w) == 1 else "(" + ", ".join(w) + ")") if False else "(" + ", ".join(list(w) + ["_"]) + ")")
+        init = pat if not brk else "(" + ", ".join(list(w) + ["false"]) + ")"
+        lines = [f"let {out_pat} ← foldE (fun (st : {sty}) ({ev} : {LTY[ety]}) => do"]
+        lines.append(f"    let {pat} := st")
+        ind = 2
+        if brk:
+            lines.append(f"    if brk{depth} = true then pure {pat} else do")
+            ind = 3
+            self.brk.append("pure (" + ", ".join(list(w) + ["true"]) + ")")
+        sp = "  " * ind
         if ety == "inat":
             a = self.fresh(n1, "nat"); b = self.fresh(n2, "natlist")
-            lines.append(f"    let {a} := {ev}.1")
-            lines.append(f"    let {b} := {ev}.2")
+            lines.append(f"{sp}let {a} := {ev}.1")
+            lines.append(f"{sp}let {b} := {ev}.2")
         else:
             a = self.fresh(n1, ety)
-            lines.append(f"    let {a} := {ev}")
-        lines += self.block(body, 2, f"pure {pat}", True)
-        lines[-1] += f") {pat} {self.par(lst)}"
+            lines.append(f"{sp}let {a} := {ev}")
+        fin = f"pure {pat}" if not brk else "pure (" + ", ".join(list(w) + ["false"]) + ")"
+        lines += self.block(body, ind, fin, True)
+        if brk: self.brk.pop()
+        lines[-1] += f") {init} {self.par(lst)}"
         # locals bound inside the body do not survive
         self.env = {k: v for k, v in self.env.items() if k in saved}
         for k, v in saved.items(): self.env[k] = v
         self.order = saved_order + [x for x in self.order if x not in saved_order]
         return pre + lines
+
+    def with_stmt(self, s):
+        """`with SurfaceSubdivision(mesh) as ed: <operations>`: the operations run on the (shared) containers, `__exit__` prepares"""
+        if len(s.items) != 1: raise TranslateError(f"{self.py}: with")
+        it = s.items[0]
+        ce = it.context_expr
+        if not (isinstance(ce, ast.Call) and getattr(ce.func, "id", "") in ("SurfaceSubdivision", "VolumeSubdivision") and len(ce.args) == 1
+                and not ce.keywords and self.mesh_of(ce.args[0]) == "m" and isinstance(it.optional_vars, ast.Name)):
+            raise TranslateError(f"{self.py}: `with {ast.unparse(ce)[:60]}` not understood")
+        self.editor = it.optional_vars.id
+        out = []
+        for b in _strip(s.body):
+            if isinstance(b, ast.For): out += self.for_stmt(b)
+            elif isinstance(b, (ast.If, ast.Return, ast.Raise, ast.With)): raise TranslateError(f"{self.py}: control flow inside a with block")
+            else:
+                pre = []
+                ls = self.simple(b, pre); out += pre + ls
+        self.editor = None
+        self.effects.append("block:" + ce.func.id)
+        out.append("let m := prepare m")
+        return out
 
     def simple(self, s, pre):
         """a non-control statement -> lines (raising reads first, in `pre`)"""
@@ -604,7 +692,8 @@ class Fn:
                 if tv == "eset":
                     nm = self.bind(tg.id, tv); return [f"let {nm} : {LTY[tv]} := []"]
                 if isinstance(val, ast.List) and not val.elts:
-                    nm = self.bind(tg.id, "nll"); return [f"let {nm} : {LTY['nll']} := []"]
+                    ty = self.list_kinds.get(tg.id, "nll")
+                    nm = self.bind(tg.id, ty); return [f"let {nm} : {LTY[ty]} := []"]
                 if tv == "bool": raise TranslateError(f"{self.py}: boolean local")
                 nm = self.bind(tg.id, tv)
                 return [f"let {nm} := {v}"]
@@ -654,6 +743,14 @@ class Fn:
                     if tb == "natlist" and ti == "nat" and tv == "nat":
                         return [f"let {b} ← setAt {b} {self.par(i)} {self.par(v)}"]
                 raise TranslateError(f"{self.py}: store `{ast.unparse(s)[:80]}`")
+        if isinstance(s, ast.AugAssign) and isinstance(s.op, ast.Add) and isinstance(s.target, ast.Subscript) \
+                and isinstance(s.target.value, ast.Name) and self.env.get(s.target.value.id, ("", ""))[1] == "natlist":
+            b = self.env[s.target.value.id][0]
+            i, ti = self.ex(s.target.slice, pre)
+            v, tv = self.ex(s.value, pre)
+            if ti == tv == "nat":
+                t = self.tmp()
+                return [f"let {t} ← idx {b} {self.par(i)}", f"let {b} ← setAt {b} {self.par(i)} ({t} + {v})"]
         if isinstance(s, ast.AugAssign) and isinstance(s.op, ast.Add):
             c = self.container(s.target)
             if c:
@@ -675,6 +772,9 @@ class Fn:
                 if isinstance(f.value, ast.Name) and f.value.id in self.env and self.env[f.value.id][1] == "nll" and tv == "natlist":
                     b = self.env[f.value.id][0]
                     return [f"let {b} := {b} ++ [{v}]"]
+                if isinstance(f.value, ast.Name) and f.value.id in self.env and self.env[f.value.id][1] == "natlist" and tv == "nat":
+                    b = self.env[f.value.id][0]
+                    return [f"let {b} := {b} ++ [{v}]"]
             if f.attr == "add" and len(args) == 1 and isinstance(f.value, ast.Name) and f.value.id in self.env and self.env[f.value.id][1] == "eset":
                 v, tv = self.ex(args[0], pre)
                 if tv == "edge":
@@ -683,7 +783,7 @@ class Fn:
             if f.attr == "clear" and not args and isinstance(f.value, ast.Attribute) and f.value.attr == "connectivity" and self.mesh_of(f.value.value) == "m":
                 self.effects.append("connectivity.clear")
                 return []
-            if isinstance(f.value, ast.Name) and f.value.id == "self" and f.attr in LEAN_NAME:
+            if isinstance(f.value, ast.Name) and (f.value.id == "self" or (self.editor and f.value.id == self.editor)) and f.attr in LEAN_NAME:
                 if f.attr not in self.u.done: raise TranslateError(f"{self.py}: call of `{f.attr}` (not translated before)")
                 want = self.u.done[f.attr]
                 if len(args) != len(want) or s.value.keywords: raise TranslateError(f"{self.py}: call `{ast.unparse(s)}`")
@@ -729,9 +829,13 @@ def _steps(fn, cls_mesh):
 
 def translate_bodies():
     """-> (records, lean text).  One record per function; a function that cannot be read gets a stub that makes its bridge fail."""
-    tree, _ = T.load(FILE)
-    unit = Unit(tree)
     recs, parts, translated = [], [], []
+    try:
+        tree, _ = T.load(FILE)
+    except Exception as e:  # noqa  (unreadable / unparsable source: every site fails, and the file on disk is replaced by stubs -
+        tree = ast.parse("")  # never leave the Generated file of an EARLIER tree in place)
+        recs.append({"site": "subdivision.py: source file readable", "ok": False, "detail": f"{type(e).__name__}: {e}"[:200]})
+    unit = Unit(tree)
     for qual, meshparam, ptypes in ORDER:
         py = qual.split(".")[-1]
 
